@@ -1241,6 +1241,11 @@ def build_kernels(D):
               lambda a, e: raw(_resh.column_stack_dense(a[0])),
               lambda c, e: "vD (G_column_stack_dense %s)" % c[0], "D"))
 
+    _kron = _m("kron")
+    K.append(("kron_csr", ["CSR", "CSR"], None,
+              lambda a, e: raw(_kron.kron_csr(a[0], a[1])),
+              lambda c, e: "vC (G_kron_csr %s %s)" % (c[0], c[1]), "C"))
+
     def clean_raws(args):
         return [raw_of(D, _dia.clean_dia(x)) for x in args]
     K.append(("isequal_dia", ["Dia", "Dia"], None,
@@ -1276,7 +1281,7 @@ def correspondence(ctx, D, rng, ncases):
     dk = dist.setdefault("corr_kernel", {})
     dv = dist.setdefault("corr_variant", {})
     weight = {"add_csr": 6, "isequal_dia": 3, "reshape_csr": 6, "reshape_dense": 2,
-              "column_stack_csr": 2, "csr.from_dense": 2, "csr.from_dia": 2, "add_dense": 2,
+              "column_stack_csr": 2, "kron_csr": 3, "csr.from_dense": 2, "csr.from_dia": 2, "add_dense": 2,
               "dia.from_dense[auto_tidyup=False]": 2}
     K = [k for k in K for _ in range(weight.get(k[0], 1))]
     for it in range(ncases):
@@ -1288,7 +1293,9 @@ def correspondence(ctx, D, rng, ncases):
         shape = gen_shape(rng, cls, big=not ctx.quick)
         shapes = [shape] * len(types)
         malformed = False
-        if len(types) == 2 and rng.random() < 0.12:
+        if name == "kron_csr":
+            shapes = [(rng.randint(1, 4), rng.randint(1, 4)), (rng.randint(1, 4), rng.randint(1, 4))]
+        elif len(types) == 2 and rng.random() < 0.12:
             s2 = list(shape)
             s2[rng.randrange(2)] += 1
             shapes[1] = tuple(s2)
